@@ -24,6 +24,27 @@ def digest(r):
     return h.hexdigest(), vals
 
 
+def make_factory(kind):
+    # all of one Python type (plain functions); the signatures decide which optional keywords einx passes
+    if kind == "plain":
+        def f(shape):
+            return np.arange(int(np.prod(shape)), dtype=np.int64).reshape(shape) - 2
+    elif kind == "named":
+        def f(shape, name="none", arg_index=-7):
+            return np.arange(int(np.prod(shape)), dtype=np.int64).reshape(shape) + 1000 * (arg_index + 8) + len(name)
+    elif kind == "kwargs":
+        def f(shape, **kwargs):
+            return np.arange(int(np.prod(shape)), dtype=np.int64).reshape(shape) + 100 * len(kwargs)
+    else:
+        def f(shape, signature=None):
+            return np.arange(int(np.prod(shape)), dtype=np.int64).reshape(shape) + (5 if signature is None else 50)
+    return f
+
+
+def mkargs(arrays):
+    return [make_factory(a.split(":")[1]) if isinstance(a, str) else np.array(a) for a in arrays]
+
+
 def main():
     cases = pickle.load(open(sys.argv[1], "rb"))
     idx = int(sys.argv[2])
@@ -42,7 +63,7 @@ def main():
         reps = 3 if (k + idx) % 5 == 0 else 1
         seen = []
         for _ in range(reps):
-            args = [np.array(a) for a in arrays]
+            args = mkargs(arrays)
             signal.alarm(60)
             try:
                 d, v = digest(getattr(einx, op)(desc, *args, **kw))
@@ -56,8 +77,8 @@ def main():
             repeat_unstable.append(k)
         if k % 3 == 0:
             try:
-                t1 = getattr(einx, op)(desc, *[np.array(a) for a in arrays], graph=True, **kw)
-                t2 = getattr(einx, op)(desc, *[np.array(a) for a in arrays], graph=True, **kw)
+                t1 = getattr(einx, op)(desc, *mkargs(arrays), graph=True, **kw)
+                t2 = getattr(einx, op)(desc, *mkargs(arrays), graph=True, **kw)
                 if str(t1) != str(t2):
                     graph_unstable.append(k)
             except BaseException:  # noqa: BLE001
